@@ -646,7 +646,7 @@ def _plan(tier):
 
 
 def jobs(tier):
-    T = 300 if tier == "quick" else 1800
+    T = 600 if tier == "quick" else 1800
     js = [{"name": "tokens", "fn": "tokens", "kind": "py", "params": {}, "timeout": 120}]
     chunk = 150 if tier == "quick" else 400
     for name, fixed in _plan(tier):
